@@ -83,9 +83,11 @@ theorem decodeType_18 (ext : Ext) (data : Bytes) (h : 1 ≤ data.length) : decod
   rw [decodeType_scalar0 ext data 18 (by omega) (by decide) (by decide)]
   simp [decodeScalar0, notShort data 18 1 (by decide) h, isTextOid]
 
-theorem decodeType_19 (ext : Ext) (data : Bytes) (h : 1 ≤ data.length) : decodeType ext data 19 = pure (.str (cstring data 64)) := by
+theorem decodeType_19 (ext : Ext) (data : Bytes) (h : 64 ≤ data.length) : decodeType ext data 19 = pure (.str (cstring data 64)) := by
   rw [decodeType_scalar0 ext data 19 (by omega) (by decide) (by decide)]
-  simp [decodeScalar0, notShort' data 19 (by decide), isTextOid]
+  first
+    | simp [decodeScalar0, notShort' data 19 (by decide), isTextOid]
+    | simp [decodeScalar0, notShort data 19 64 (by decide) h, isTextOid]
 
 theorem decodeType_21 (ext : Ext) (data : Bytes) (h : 2 ≤ data.length) : decodeType ext data 21 = decInt2 data := by
   rw [decodeType_scalar0 ext data 21 (by omega) (by decide) (by decide)]
@@ -396,5 +398,42 @@ theorem decMac8_view (b : Bytes) (hl : b.length = 8) : decMac b 8 = .ok (view (.
   obtain ⟨x7, t7, rfl, h7⟩ := exists_cons_of_length h6
   have := List.eq_nil_of_length_eq_zero h7; subst this
   rfl
+
+/-! ### json: the stored text is never empty -/
+
+theorem decAux_ne (fuel n : Nat) (acc : Bytes) : decAux fuel n acc ≠ [] := by
+  induction fuel generalizing n acc with
+  | zero => simp [decAux]
+  | succ f ih =>
+    unfold decAux
+    split
+    · simp
+    · exact ih _ _
+
+theorem decNat_ne (n : Nat) : decNat n ≠ [] := decAux_ne _ _ _
+
+theorem length_pos_of_ne {l : Bytes} (h : l ≠ []) : 1 ≤ l.length := by
+  cases l with
+  | nil => exact absurd rfl h
+  | cons a t => simp
+
+theorem jsonNum_length (neg : Bool) (m : Nat) (e : Int) : 1 ≤ (jsonNum neg m e).length := by
+  unfold jsonNum
+  have hd := length_pos_of_ne (decNat_ne m)
+  simp only
+  split
+  · simp only [List.length_append]; omega
+  · split
+    · simp only [List.length_append, List.length_cons, List.length_nil]; omega
+    · simp only [List.length_append, List.length_cons, List.length_nil]; omega
+
+theorem render_length (d : JV) (ws : Nat) : 1 ≤ (d.render ws).length := by
+  cases d with
+  | null => simp [JV.render, asc]
+  | bool b => cases b <;> simp [JV.render, asc]
+  | num n m e => simp only [JV.render]; exact jsonNum_length n m e
+  | str s => simp [JV.render]
+  | arr xs => simp [JV.render]
+  | obj kvs => simp [JV.render]
 
 end PgVerif.Proofs.ScalarsRT
